@@ -173,7 +173,7 @@ def _write_replay(pid, sub, cfg, case, v, vseed):
     return path
 
 
-def _run_sub(ctx, sub, cfg, n, libs):
+def _run_sub(ctx, sub, cfg, n, libs, shrink=True):
     """Run one subcheck under Hypothesis in this worker. Returns failure tuple or None."""
     ctx.sub, ctx.cfg = sub.name, cfg
     ctx.idle()      # set-up work (loading libraries, parsing assembly listings) is not a library call under watch
@@ -198,7 +198,7 @@ def _run_sub(ctx, sub, cfg, n, libs):
     test = given(sub.strategy)(body)
     test = seed(_derive_seed(ctx.vseed, ctx.pid, sub.name, cfg, ctx.worker))(test)
     test = settings(max_examples=max(1, n), database=None, deadline=None, derandomize=False, report_multiple_bugs=False,
-                    suppress_health_check=list(HealthCheck), phases=[Phase.generate] if sub.nondeterministic else [Phase.generate, Phase.shrink], print_blob=False)(test)
+                    suppress_health_check=list(HealthCheck), phases=[Phase.generate] if (sub.nondeterministic or not shrink) else [Phase.generate, Phase.shrink], print_blob=False)(test)
     try:
         test()
     except Violation:
@@ -261,7 +261,7 @@ def _worker(mod, pid, tier, vseed, worker, nworkers, only_sub, conn, journal=Non
                 if fail is not None:
                     # reported at once: a later sub-check that never returns must not swallow it
                     (s_, c_, case_, v_) = fail
-                    conn.send(("partial", (s_, c_, enc(case_), v_.sig, v_.msg)))
+                    conn.send(("partial", (s_, c_, enc(case_), v_.sig, v_.msg, {"worker": worker, "nworkers": nworkers, "n": n, "tier": tier, "vseed": vseed})))
         out = {
             "evaluations": ctx.evaluations, "nontrivial": ctx.nontrivial, "classes": ctx.classes, "per_sub": ctx.per_sub,
             "per_cfg": ctx.per_cfg, "samples": ctx.samples, "known_hits": ctx.known_hits, "extra": ctx.extra,
@@ -284,10 +284,57 @@ def hang_seconds():
     return float(os.environ.get("VERIF_HANG_S", "150") or "150")
 
 
+def replay_sequence(mod, pid, body, times=2):
+    """Re-generates the exact sequence of cases one worker ran (same seed, same count, no shrinking) in a fresh process and reports
+    whether it runs into a violation again. Used when a failing case passes on its own: the failure then depends on what ran before
+    it (state kept between calls by the code under test - or by the harness), and the generated history is the reproducer."""
+    sub = [s for s in mod.SUBCHECKS if s.name == body["subcheck"]]
+    if not sub:
+        raise HarnessError("unknown subcheck %s" % body["subcheck"])
+    sub = sub[0]
+    q = body["sequence"]
+    from . import lib as libmod
+    fails, msg = 0, ""
+    for _ in range(times):
+        r, w = os.pipe()
+        child = os.fork()
+        if child == 0:
+            os.close(r)
+            code = 0
+            try:
+                ctx = Ctx(pid, q["tier"], q["vseed"], q["worker"], q["nworkers"])
+                fail = _run_sub(ctx, sub, body["config"], q["n"], lambda c: libmod.get(*(c.split(":") + [None])[:2]), shrink=False)
+                if fail is not None:
+                    os.write(w, ("%s: %s" % (fail[3].sig, fail[3].msg)).encode()[:4000])
+                    code = 1
+            except BaseException as e:
+                os.write(w, ("harness: %r" % (e,)).encode()[:4000])
+                code = 3
+            os._exit(code)
+        os.close(w)
+        data = b""
+        while True:
+            chunk = os.read(r, 65536)
+            if not chunk:
+                break
+            data += chunk
+        os.close(r)
+        _, status = os.waitpid(child, 0)
+        if os.WIFEXITED(status) and os.WEXITSTATUS(status) == 1:
+            fails += 1
+            msg = data.decode(errors="replace")
+        elif os.WIFSIGNALED(status) or (os.WIFEXITED(status) and os.WEXITSTATUS(status) not in (0, 3)):
+            fails += 1
+            msg = "%s/crash: the generated sequence ended the process" % sub.name
+    return fails == times, msg
+
+
 def replay_case(mod, pid, path, times=3, quiet=False):
     """Re-execute a stored case outside Hypothesis. Returns (fails_every_time, message)."""
     with open(path) as f:
         body = json.load(f)
+    if body.get("sequence"):
+        return replay_sequence(mod, pid, body)
     if body["subcheck"].startswith("static") and hasattr(mod, "static_checks"):
         st_ = mod.static_checks("quick", body.get("seed", 0))
         hit = [f for f in st_.get("failures", []) if f[3] == body.get("signature")]
@@ -499,7 +546,9 @@ def run_property(mod, pid, tier, vseed, nworkers=None, only_sub=None, extra_stat
     known = {(k["property"], k["signature"]): k for k in kn}
     violations = []
     seen = set()
-    for (s, c, case_enc, sig, msg) in agg["failures"]:
+    unreproduced = []
+    for f_ in agg["failures"]:
+        (s, c, case_enc, sig, msg), prov = f_[:5], (f_[5] if len(f_) > 5 else None)
         if (pid, sig) in known:
             agg["known_hits"][sig] += 1
             continue
@@ -514,8 +563,27 @@ def run_property(mod, pid, tier, vseed, nworkers=None, only_sub=None, extra_stat
                 ok, _ = replay_case(mod, pid, path)
             except Exception:
                 ok = True
+        if not ok and prov is not None and not sig.endswith(("/hang", "/crash")):
+            # the case passes on its own: does the generated history that led to it fail again?
+            with open(path) as fh:
+                body = json.load(fh)
+            body["sequence"] = prov
+            body["message"] = "(fails only after the cases generated before it; replay re-generates that history) " + body["message"]
+            try:
+                ok, _ = replay_sequence(mod, pid, body)
+            except Exception:
+                ok = False
+            if ok:
+                with open(path, "w") as fh:
+                    json.dump(body, fh, indent=1)
+                msg = body["message"]
+            else:
+                unreproduced.append((sig, msg))
         if ok:
             violations.append((path, sig, msg))
+    for sig, msg in unreproduced:
+        # seen once, but neither the case alone nor the re-generated history fails again: reported, never counted as a violation
+        print("UNREPRODUCED: property=%s %s: %s" % (pid, sig, msg[:300]))
     for path, bad, msg in regress:
         if bad:
             sig = msg.split(":")[0]
